@@ -465,49 +465,7 @@ func checkC19(c *Ctx) {
 	}
 
 	// ---------------- R19f
-	for fn, decl := range decls {
-		ast.Inspect(decl.Body, func(n ast.Node) bool {
-			cl, ok := n.(*ast.CompositeLit)
-			if !ok {
-				return true
-			}
-			t := info.TypeOf(cl)
-			if t == nil || !strings.HasSuffix(t.String(), "yaml/v4.Node") {
-				return true
-			}
-			set := map[string]ast.Expr{}
-			for _, el := range cl.Elts {
-				if kv, ok := el.(*ast.KeyValueExpr); ok {
-					set[types.ExprString(kv.Key)] = kv.Value
-				}
-			}
-			val := set["Value"]
-			if val == nil {
-				return true
-			}
-			// where does the node go: Const / Enum (constraints) vs Example(s)
-			role := c19NodeRole(decl, cl)
-			if role != "Enum" && role != "Const" {
-				return true
-			}
-			// numeric text (strconv / %d / %g) needs no tag
-			src := c19ValueSource(info, decl.Body, val)
-			if src == "number" {
-				r.OK("R19f", fmt.Sprintf("%s: %s scalar from a number formatter", fn.Name(), role)+" @"+lineKey(c, cl.Pos(), decl), c.P.Pos(cl.Pos()))
-				return true
-			}
-			tag := ""
-			if e, ok := set["Tag"]; ok {
-				if tv, ok := info.Types[e]; ok && tv.Value != nil {
-					tag = strings.Trim(tv.Value.ExactString(), `"`)
-				}
-			}
-			_, styled := set["Style"]
-			r.Check(tag == "!!str" || styled, "R19f", fmt.Sprintf("%s: string-valued %s scalar (%s) is tagged !!str", fn.Name(), role, types.ExprString(val)), c.P.Pos(cl.Pos()),
-				fmt.Sprintf("%s publishes the string %s as an untagged plain YAML scalar: a value such as \"123\", \"true\", \"null\" or \"\" is re-read as a number, boolean or null, so the %s keyword no longer admits the string the rule admits", fn.Name(), types.ExprString(val), strings.ToLower(role)))
-			return true
-		})
-	}
+	c19StringTags(c, decls, info, "R19f")
 
 	// ---------------- R19g
 	c19Required(c, decls, info)
@@ -715,3 +673,52 @@ func sortedFuncNames(decls map[*types.Func]*ast.FuncDecl) []namedFn {
 }
 
 func init() { props["C19"] = checkC19 }
+
+// c19StringTags: string-valued const/enum YAML scalars carry the !!str tag.
+func c19StringTags(c *Ctx, decls map[*types.Func]*ast.FuncDecl, info *types.Info, rid string) {
+	r := c.R
+	for fn, decl := range decls {
+		ast.Inspect(decl.Body, func(n ast.Node) bool {
+			cl, ok := n.(*ast.CompositeLit)
+			if !ok {
+				return true
+			}
+			t := info.TypeOf(cl)
+			if t == nil || !strings.HasSuffix(t.String(), "yaml/v4.Node") {
+				return true
+			}
+			set := map[string]ast.Expr{}
+			for _, el := range cl.Elts {
+				if kv, ok := el.(*ast.KeyValueExpr); ok {
+					set[types.ExprString(kv.Key)] = kv.Value
+				}
+			}
+			val := set["Value"]
+			if val == nil {
+				return true
+			}
+			// where does the node go: Const / Enum (constraints) vs Example(s)
+			role := c19NodeRole(decl, cl)
+			if role != "Enum" && role != "Const" {
+				return true
+			}
+			// numeric text (strconv / %d / %g) needs no tag
+			src := c19ValueSource(info, decl.Body, val)
+			if src == "number" {
+				r.OK(rid, fmt.Sprintf("%s: %s scalar from a number formatter", fn.Name(), role)+" @"+lineKey(c, cl.Pos(), decl), c.P.Pos(cl.Pos()))
+				return true
+			}
+			tag := ""
+			if e, ok := set["Tag"]; ok {
+				if tv, ok := info.Types[e]; ok && tv.Value != nil {
+					tag = strings.Trim(tv.Value.ExactString(), `"`)
+				}
+			}
+			_, styled := set["Style"]
+			r.Check(tag == "!!str" || styled, rid, fmt.Sprintf("%s: string-valued %s scalar (%s) is tagged !!str", fn.Name(), role, types.ExprString(val)), c.P.Pos(cl.Pos()),
+				fmt.Sprintf("%s publishes the string %s as an untagged plain YAML scalar: a value such as \"123\", \"true\", \"null\" or \"\" is re-read as a number, boolean or null, so the %s keyword no longer admits the string the rule admits", fn.Name(), types.ExprString(val), strings.ToLower(role)))
+			return true
+		})
+	}
+
+}
